@@ -6,9 +6,9 @@ CFG = {
     "required_theorems": ["RpmVerif.C09.fromEntries_valid", "RpmVerif.C09.slots_nonempty", "RpmVerif.C09.builder_records_nonempty",
                           "RpmVerif.C09.builder_tags_legal", "RpmVerif.C09.builder_records_ok", "RpmVerif.C09.build_header_valid",
                           "RpmVerif.C09.sign_clear_valid", "RpmVerif.C09.sign_clear_valid_discharged", "RpmVerif.C09.sigsOk_of_build", "RpmVerif.C09.lead_valid", "RpmVerif.C09.sigPadding_written",
-                          "RpmVerif.C09.rpmlib_declared", "RpmVerif.C09.build_struct_features_declared", "RpmVerif.C09.build_rpmlib_valid_partial",
-                          "RpmVerif.C09.allRequires_mem", "RpmVerif.C09.content_undeclared", "RpmVerif.C09.tilde_undeclared", "RpmVerif.C09.caret_undeclared",
-                          "RpmVerif.C09.rich_undeclared", "RpmVerif.C09.interp_args_undeclared", "RpmVerif.C09.plain_of_user",
+                          "RpmVerif.C09.rpmlib_declared", "RpmVerif.C09.build_struct_features_declared", "RpmVerif.C09.build_rpmlib_valid",
+                          "RpmVerif.C09.allRequires_cases", "RpmVerif.C09.contentDeps_clean", "RpmVerif.C09.content_declared", "RpmVerif.C09.name_mem_pushFeature",
+                          "RpmVerif.C09.versionHas_of_header", "RpmVerif.C09.usesRichDeps_of_header", "RpmVerif.C09.usesInterpArgs_of_header",
                           "RpmVerif.C09.evrHasChar_built", "RpmVerif.C09.hasRichDep_built", "RpmVerif.C09.hasInterpArgs_built",
                           "RpmVerif.C09.slots_types", "RpmVerif.C09.build_tagtypes_valid", "RpmVerif.C09.asset_tag_types_agree",
                           "RpmVerif.C09.build_flags_valid", "RpmVerif.C09.sig_limits_valid", "RpmVerif.C09.history_foreign_valid",
@@ -52,19 +52,16 @@ CFG = {
     "assumptions": COMMON_ASSUME + [
         "valid configuration (CfgOk): C06.Valid (NUL-free valid UTF-8 strings, integers in range), header store < 256 MiB, each file's size field = content "
         "length, cpio path shorter than 4096 bytes and not 'TRAILER!!!', fewer than 2^32-1 files",
-        "the rpm rules are transcribed as stated at the top of Spec/RpmValid.lean (tag >= 100 also in signature headers, type 1..9, data ends before the region trailer)",
-        "PlainFeatures (build_valid, Pipeline.build_valid): no '~' / '^' in any version the package writes, no dependency name starting with '(' among requires / recommends / "
-        "suggests / supplements / enhances / conflicts, at most one word per scriptlet interpreter — outside it the rpmlib() clause is refuted, not assumed"],
+        "the rpm rules are transcribed as stated at the top of Spec/RpmValid.lean (tag >= 100 also in signature headers, type 1..9, data ends before the region trailer)"],
     "level_text": "Session 5 (AUDIT2 follow-up 8) — spec closer to rpm: slots_types / build_tagtypes_valid (every one of the 102 slots carries the data type of rpm's tag table; "
                   "asset_tag_types_agree ties the transcribed table to the (tag, type) pairs scraped from the rpm-built asset packages), sig_limits_valid (il <= 32, dl <= 64 MiB), "
                   "build_flags_valid, the cpio theorems re-proved against the Spec's own newc reader (Lemmas/RpmCpio: readEntry_intoHeader / _writeEntry / _strippedHeader; "
                   "plus_field_rejected: a '+000000b' field is taken by rpm-rs' reader model and rejected by the Spec), history_foreign_valid (sign / clear preserve ForeignValid; "
-                  "hypotheses satisfiable: fPkg_foreign_valid). RPMLIB CLAUSE: the full statement 'for every configuration the built header declares the rpmlib() features it "
-                  "uses' is FALSE of the current code and is REFUTED in general form — tilde_undeclared (any version with '~'), caret_undeclared ('^'), rich_undeclared (a "
-                  "requirement starting with '('), interp_args_undeclared (a %pre interpreter with arguments), each unless the caller wrote the rpmlib() requirement himself "
-                  "(content_undeclared, allRequires_mem: prepare_data adds eight rpmlib() names at most and never one of the four) — and PROVED for every configuration that "
-                  "uses none of the four (build_rpmlib_valid_partial under PlainFeatures; plain_of_user derives PlainFeatures from the caller's arguments); build_valid "
-                  "carries that hypothesis. Earlier text: Theorems for ALL record lists / configurations / signature lists (no size bound): from_entries over pairwise distinct legal tags and canonical "
+                  "hypotheses satisfiable: fPkg_foreign_valid). RPMLIB CLAUSE: build_rpmlib_valid — for EVERY configuration the built header declares all thirteen rpmlib() features it uses; the four content "
+                  "features (TildeInVersions, CaretInVersions, RichDependencies, ScriptletInterpreterArgs) since the fix of builder.rs (model: Bld.versionHas / usesRichDeps / "
+                  "usesInterpArgs / pushFeature; content_declared; rpm's three tests on the built header imply the builder's own: versionHas_of_header, usesRichDeps_of_header, "
+                  "usesInterpArgs_of_header, because what the builder adds uses none of the features: allRequires_cases, contentDeps_clean). Before that fix the clause was refuted "
+                  "in general form (git history of Props/C09.lean: tilde_undeclared, …). Earlier text: Theorems for ALL record lists / configurations / signature lists (no size bound): from_entries over pairwise distinct legal tags and canonical "
                   "non-empty data yields a header satisfying every header rule (region entry and trailer, strictly ascending tags via the stable sort, legal types, "
                   "counts >= 1, type alignment, sequential non-overlapping in-range data, terminated strings); every one of the builder's 102 record slots is non-empty "
                   "and carries a tag >= 100, so the main header of every valid configuration is valid; every signature header built by build / sign / build_and_sign / "
